@@ -194,7 +194,7 @@ pub fn sub_record(r: &mut Rng) -> Value {
         if let Some(so) = memchr::arch::all::shiftor::Finder::new(&n) {
             o.push(obs("shiftor::Finder", "find", json!(opt_to_i(so.find(&h))), 1, true));
         }
-        #[cfg(target_arch = "x86_64")]
+        #[cfg(verif_x86)]
         {
             use memchr::arch::x86_64::{avx2, sse2};
             if let Some(pf) = sse2::packedpair::Finder::new(&n) {
